@@ -143,6 +143,9 @@ int main(int argc, char *argv[])
 
         // If UDP is used the packets starts with an encapsulation number
         if (use_udp) {
+            if (res < AVTP_UDP_HEADER_LEN) {
+                continue;
+            }
             udp_pdu = pdu;
             udp_seq_num = Avtp_Udp_GetEncapsulationSeqNo((Avtp_Udp_t *)udp_pdu);
             cf_pdu = pdu + AVTP_UDP_HEADER_LEN;
@@ -151,14 +154,27 @@ int main(int argc, char *argv[])
             cf_pdu = pdu;
         }
 
+        // Ignore packets that are too short to hold the control format header
+        if ((uint64_t)res < proc_bytes + AVTP_NTSCF_HEADER_LEN) {
+            continue;
+        }
+
         // Check if the packet is a control format packet (i.e. NTSCF or TSCF)
         subtype = Avtp_CommonHeader_GetSubtype((Avtp_CommonHeader_t*)cf_pdu);
         if (subtype == AVTP_SUBTYPE_TSCF){
+            if ((uint64_t)res < proc_bytes + AVTP_TSCF_HEADER_LEN) {
+                continue;
+            }
             proc_bytes += AVTP_TSCF_HEADER_LEN;
             msg_length = Avtp_Tscf_GetStreamDataLength((Avtp_Tscf_t*)cf_pdu);
         } else {
             proc_bytes += AVTP_NTSCF_HEADER_LEN;
             msg_length = Avtp_Ntscf_GetNtscfDataLength((Avtp_Ntscf_t*)cf_pdu);
+        }
+
+        // Ignore packets that are too short to hold the fixed ACF VSS header
+        if ((uint64_t)res < proc_bytes + AVTP_VSS_FIXED_HEADER_LEN) {
+            continue;
         }
 
         // Check if the control packet payload is a ACF GPC.
@@ -172,23 +188,42 @@ int main(int argc, char *argv[])
         // Parse the VSS Packet and print contents on the STDOUT
         Vss_AddrMode_t addrMode;
         VssPath_t path;
+        char path_string[MAX_PDU_SIZE + 1];
+        uint64_t vss_bytes = (uint64_t)res - proc_bytes;   // bytes available for the VSS message
+        uint16_t path_bytes;
+
         addrMode = Avtp_Vss_GetAddrMode((Avtp_Vss_t*)acf_pdu);
+        if (addrMode != VSS_INTEROP_MODE && addrMode != VSS_STATIC_ID_MODE) {
+            continue;
+        }
+
+        // The path (2 byte length + string, or 4 byte static id) must lie inside the received data
+        if (vss_bytes < AVTP_VSS_FIXED_HEADER_LEN + ((addrMode == VSS_INTEROP_MODE) ? 2 : 4)) {
+            continue;
+        }
+        path_bytes = Avtp_Vss_CalcVssPathLength((Avtp_Vss_t*)acf_pdu);
+        if (path_bytes < 2 ||    // 16 bit wrap-around of an absurd interop path length
+            vss_bytes < (uint64_t)AVTP_VSS_FIXED_HEADER_LEN + path_bytes) {
+            continue;
+        }
+
+        path.vss_interop_path.path = path_string;
         Avtp_Vss_GetVssPath((Avtp_Vss_t*)acf_pdu, &path);
 
         if (addrMode == VSS_INTEROP_MODE) {
-            char path_string[path.vss_interop_path.path_length+1];
-            memset(path_string, '\0', path.vss_interop_path.path_length+1);
-            memcpy(path_string, path.vss_interop_path.path, path.vss_interop_path.path_length);
+            path_string[path.vss_interop_path.path_length] = '\0';
             printf("VSS Path: %s, ", path_string);
         } else if (addrMode == VSS_STATIC_ID_MODE) {
             printf("VSS Path: %d, ", path.vss_static_id_path);
         }
 
+        // Only scalar floats are printed; other datatypes need caller provided buffers
         VssData_t data;
         Vss_Datatype_t dt = Avtp_Vss_GetDatatype((Avtp_Vss_t*)acf_pdu);
-        Avtp_Vss_GetVssData((Avtp_Vss_t*)acf_pdu, &data);
 
-        if (dt == VSS_FLOAT) {
+        if (dt == VSS_FLOAT &&
+            vss_bytes >= (uint64_t)AVTP_VSS_FIXED_HEADER_LEN + path_bytes + sizeof(float)) {
+            Avtp_Vss_GetVssData((Avtp_Vss_t*)acf_pdu, &data);
             printf("VSS Value: %f\n", data.data_float);
         }
 
